@@ -89,6 +89,15 @@ func (env *Env) lookup(name string) (Val, bool) {
 	}
 	fr := env.fr
 	if !env.onlyNames && fr != nil {
+		if fr.c != nil {
+			if ps, ok := fr.c.Opts["params"]; ok {
+				for i, n := range strings.Fields(ps) {
+					if n == name && i < len(fr.params) {
+						return fr.params[i], true
+					}
+				}
+			}
+		}
 		for i, p := range fr.fn.Params {
 			if p.Name() == name && i < len(fr.params) {
 				return fr.params[i], true
@@ -331,8 +340,13 @@ func (fx *FX) evalExpr(env *Env, e Expr) Val {
 			}
 			el := x.Typ.Underlying().(*types.Slice).Elem()
 			es := w.SortOf(el)
-			mem := fx.comp(env.st, "M:"+sortID(es), SArr(SInt, SArr(SBV64, es)))
-			r := Select(Select(mem, sReg(x.T)), bvbin("bvadd", sOff(x.T), i.T))
+			var r Term
+			if x.Imm != nil {
+				r = Select(app(x.Imm.fe, SArr(SBV64, es), x.Imm.obj), bvbin("bvadd", sOff(x.T), i.T))
+			} else {
+				mem := fx.comp(env.st, "M:"+sortID(es), SArr(SInt, SArr(SBV64, es)))
+				r = Select(Select(mem, sReg(x.T)), bvbin("bvadd", sOff(x.T), i.T))
+			}
 			r.Signed = isSigned(el)
 			return Val{T: r, Typ: el}
 		case x.T.Sort == SStr:
@@ -373,7 +387,7 @@ func (fx *FX) evalExpr(env *Env, e Expr) Val {
 			if t.Hi != nil {
 				hi = coerce(fx.evalExpr(env, t.Hi), SBV64, true).T
 			}
-			return Val{T: mkSlice(sReg(x.T), bvbin("bvadd", sOff(x.T), lo), bvbin("bvsub", hi, lo), bvbin("bvsub", sCap(x.T), lo)), Typ: x.Typ}
+			return Val{T: mkSlice(sReg(x.T), bvbin("bvadd", sOff(x.T), lo), bvbin("bvsub", hi, lo), bvbin("bvsub", sCap(x.T), lo)), Typ: x.Typ, Imm: x.Imm}
 		case SStr:
 			lo, hi := zero, strLen(x.T)
 			if t.Lo != nil {
@@ -406,7 +420,7 @@ func (fx *FX) evalField(env *Env, x Val, f string) Val {
 				if st.Field(k).Name() == f {
 					r := fx.loadHeapField(env.st, x.T, sname, k)
 					r.Signed = isSigned(st.Field(k).Type())
-					return Val{T: r, Typ: st.Field(k).Type()}
+					return Val{T: r, Typ: st.Field(k).Type(), Imm: fx.immElems(sname, k, x.T)}
 				}
 			}
 			env.fail("no field %s", f)
